@@ -163,6 +163,7 @@ func genC19(out, tier string, rng *rand.Rand) {
 		}
 	}
 	extra["exhaustive_schedules"] = n
+	extra["exhaustive_subspace"] = "2 goroutines x 1 key x 1 round: all 924 interleavings of the 6+6 internal steps, each also with one cancellation of either goroutine at each of the 13 positions (the runtime's random choice at a select with two ready alternatives is sampled, not enumerated)"
 	extra["exhaustive_s"] = time.Since(t0).Seconds()
 
 	// (2) Unlock of a key that is not held (by the caller / by anybody)
